@@ -7,6 +7,8 @@ import IceProofs.GatherProv
 import IceProofs.GatherComplete
 import IceProofs.GatherCycReach
 import IceTie.Gather
+import IceModel.ActiveTcp
+import IceSpec.C18Active
 /-!
 # C18 — gathering produces exactly the candidates the configuration allows
 
@@ -1083,5 +1085,47 @@ example : IceSpec.C03Gather.addrViolation
 example : (match newAgent { mdMuxCfg with udpMux := some [⟨.g6, 1⟩, ⟨.g4, 1⟩], netTypes := [.udp4] } (cgIfs [⟨.g4, 1⟩]) with
     | .ok s => ((step s .gather).1.cands.map fun c => (c.d.net, c.d.addr), (step s .gather).1.opens)
     | .error _ => ([], 9)) = ([(NetType.udp4, ⟨.g4, 1⟩)], 1) := by decide
+
+/-! ### active ICE-TCP candidates (the only local candidates published outside a gathering cycle) -/
+
+/-- **Soundness of the active ICE-TCP path.**  For every configuration and any number of eligible local addresses,
+every local candidate the agent publishes when a remote passive TCP candidate is added passes the C18 clauses: it is a
+host candidate only if the host candidate type is enabled, its network type is enabled, and it is published under the
+mDNS name exactly in mDNS gather mode.  (Repaired code: without finding C18-G13, see the witness.) -/
+theorem C18_active_tcp_sound (c : IceModel.ActiveTcp.Cfg) (h13 : c.g13 = false) (n : Nat) :
+    IceSpec.C18Active.violation c (IceModel.ActiveTcp.publish c n) = none := by
+  unfold IceSpec.C18Active.violation
+  rw [List.findSome?_eq_none_iff]
+  intro p hp
+  unfold IceModel.ActiveTcp.publish at hp
+  rw [h13] at hp
+  rcases c with ⟨host, net, dis, md, g13⟩
+  cases host <;> cases net <;> cases dis <;> cases md <;>
+    simp [List.mem_replicate] at hp <;>
+    (obtain ⟨_, rfl⟩ := hp; simp [IceSpec.C18Active.pubViolation])
+
+/-- nothing is published with `WithDisableActiveTCP`, for a disabled network type, or without the host candidate type -/
+theorem C18_active_tcp_none (c : IceModel.ActiveTcp.Cfg) (h13 : c.g13 = false) (n : Nat)
+    (h : c.disableActive = true ∨ c.netEnabled = false ∨ c.host = false) :
+    IceModel.ActiveTcp.publish c n = [] := by
+  unfold IceModel.ActiveTcp.publish
+  rcases c with ⟨host, net, dis, md, g13⟩
+  simp only at h h13
+  subst h13
+  cases host <;> cases net <;> cases dis <;> simp at h ⊢
+
+/-- the code with finding C18-G13 (no test of the host candidate type, raw interface addresses): an agent configured
+for server-reflexive candidates only publishes a host candidate, and an agent in mDNS gather mode exposes the address -/
+theorem C18_active_tcp_G13_witness :
+    ¬ (∀ (c : IceModel.ActiveTcp.Cfg) (n : Nat), IceSpec.C18Active.violation c (IceModel.ActiveTcp.publish c n) = none) := by
+  intro h
+  have := h { host := false, netEnabled := true, disableActive := false, mdnsGather := false, g13 := true } 1
+  exact absurd this (by decide)
+
+example : IceModel.ActiveTcp.publish { host := true, netEnabled := true, disableActive := false, mdnsGather := true } 2
+    = [{ isHost := true, named := true, active := true }, { isHost := true, named := true, active := true }] := by decide
+example : IceSpec.C18Active.violation { host := true, netEnabled := true, disableActive := false, mdnsGather := true, g13 := true }
+    (IceModel.ActiveTcp.publish { host := true, netEnabled := true, disableActive := false, mdnsGather := true, g13 := true } 1)
+    = some "interface address exposed in mDNS gather mode (active ICE-TCP candidate)" := by decide
 
 end IceProps.C18
